@@ -254,6 +254,24 @@ var c05Kinds = []c05Kind{
 			return out
 		},
 		openDecs: func(f *dst.File) *dst.Decorations { return &valueOf2(f).(*dst.CompositeLit).Decs.Lbrace }},
+	{name: "composite-literal-raw-strings-after-line-directive", edges: true, exprList: true, rawStr: true,
+		// the same in generated code: a //line directive before the declaration shifts every reported
+		// line number, the line breaks inside the literals are still where the bytes are
+		tmpl: func(n int) string {
+			s := "package p\n\n//line gen.y:1000\nvar v = []string{\n"
+			for _, e := range names(n) {
+				s += "\t\x60" + e + "\n\nx\ny\x60,\n"
+			}
+			return s + "}\n"
+		},
+		elems: func(f *dst.File, n int) []dst.Node {
+			var out []dst.Node
+			for _, e := range f.Decls[0].(*dst.GenDecl).Specs[0].(*dst.ValueSpec).Values[0].(*dst.CompositeLit).Elts {
+				out = append(out, e)
+			}
+			return out
+		},
+		openDecs: func(f *dst.File) *dst.Decorations { return &valueOf2(f).(*dst.CompositeLit).Decs.Lbrace }},
 	{name: "composite-literal-qualified", edges: true, exprList: true, imports: true,
 		tmpl: func(n int) string {
 			s := "package p\n\nimport \"x/pk\"\n\nvar v = []int{\n"
